@@ -79,6 +79,15 @@ class Poly:
             t = (t + m) % mod
         return t
 
+    def terms(s):
+        """[(sign, abs coeff, monomial vars list)] in the order of txt()"""
+        pos, neg = [], []
+        for k in sorted(s.d):
+            c = s.d[k]
+            mv = [n for n, e in k for _ in range(e)]
+            (pos if c > 0 else neg).append((1 if c > 0 else -1, abs(c), mv))
+        return pos + neg
+
     def txt(s):
         """canonical text; negative coefficients are written as subtractions (the `(-1)*(m)` form sends
         Verus' nonlinear_arith mode into a resource-limit failure)"""
@@ -100,6 +109,99 @@ class Poly:
         for t in neg:
             out += " - " + t
         return out
+
+
+def mono_txt(mv):
+    return "*".join(mv)
+
+
+def term_txt(a, mv):
+    if not mv:
+        return f"({a}int)"
+    if a == 1:
+        return mono_txt(mv)
+    return f"(({a}int)*({mono_txt(mv)}))"
+
+
+def prefix_txt(terms, k):
+    """text of the first k terms exactly as Poly.txt writes them (left-assoc partial sum)"""
+    if k == 0:
+        return "0int"
+    pos = [t for t in terms if t[0] > 0]
+    out = None
+    for i, (sg, a, mv) in enumerate(terms[:k]):
+        t = term_txt(a, mv)
+        if i == 0:
+            out = t if sg > 0 else "0int - " + t
+        else:
+            out += (" + " if sg > 0 else " - ") + t
+    return out
+
+
+def _insert_proof(X, y, lines):
+    """lines proving prod(X)*y == prod(insert(X,y)); returns the inserted list"""
+    if y >= X[-1]:
+        return X + [y]
+    x = X[-1]
+    Xp = X[:-1]
+    if not Xp:
+        lines.append(f"lemma_mul_is_commutative({x}, {y});")
+        return [y, x]
+    lines.append(f"lemma_mul_swap_last({mono_txt(Xp)}, {x}, {y});")
+    Y = _insert_proof(Xp, y, lines)
+    return Y + [x]
+
+
+def mono_mul_proof(A, B, lines):
+    """lines proving (prod A)*(prod B) == prod(merge); A, B non-empty sorted var lists"""
+    C = list(A)
+    for k, y in enumerate(B):
+        if k > 0:
+            lines.append(f"lemma_mul_is_associative({mono_txt(A)}, {mono_txt(B[:k])}, {y});")
+        C = _insert_proof(C, y, lines)
+    return C
+
+
+def product_proof(p1, p2, lines, cache):
+    """append lines proving (p1.txt()) * (p2.txt()) == (p1*p2).txt() using only lemma instantiations
+    (distributivity, associativity, commutativity) - no nonlinear_arith."""
+    t1, t2 = p1.terms(), p2.terms()
+    E1, E2 = p1.txt(), p2.txt()
+    if not t1 or not t2:
+        lines.append(f"lemma_mul_basics({E1 if not t2 else E2});")
+        return
+    # distribute over the terms of p1
+    n, m = len(t1), len(t2)
+    allpos1 = t1[0][0] > 0
+    for k in range(n, 1, -1):
+        sg, a, mv = t1[k - 1]
+        f = "lemma_mul_is_distributive_add_other_way" if sg > 0 else "lemma_mul_is_distributive_sub_other_way"
+        lines.append(f"{f}({E2}, {prefix_txt(t1, k - 1)}, {term_txt(a, mv)});")
+    if not allpos1:
+        sg, a, mv = t1[0]
+        lines.append(f"lemma_mul_is_distributive_sub_other_way({E2}, 0int, {term_txt(a, mv)}); lemma_mul_basics({E2});")
+    for (sg1, a1, mv1) in t1:
+        T = term_txt(a1, mv1)
+        for l in range(m, 1, -1):
+            sg, a, mv = t2[l - 1]
+            f = "lemma_mul_is_distributive_add" if sg > 0 else "lemma_mul_is_distributive_sub"
+            lines.append(f"{f}({T}, {prefix_txt(t2, l - 1)}, {term_txt(a, mv)});")
+        if t2[0][0] < 0:
+            sg, a, mv = t2[0]
+            lines.append(f"lemma_mul_is_distributive_sub({T}, 0int, {term_txt(a, mv)}); lemma_mul_basics({T});")
+        for (sg2, a2, mv2) in t2:
+            if not mv1 or not mv2:
+                # a literal times a term: linear arithmetic, except literal*(literal*mono) nesting
+                if mv1 or mv2:
+                    mv = mv1 or mv2
+                    lines.append(f"lemma_mul_is_associative({a1}int, {a2}int, {mono_txt(mv)}); lemma_mul_is_commutative({term_txt(a1, mv1)}, {term_txt(a2, mv2)});")
+                continue
+            key = (tuple(mv1), tuple(mv2))
+            if key not in cache:
+                C = mono_mul_proof(mv1, mv2, lines)
+                cache[key] = C
+            C = cache[key]
+            lines.append(f"lemma_term_mul({a1}int, {mono_txt(mv1)}, {a2}int, {mono_txt(mv2)}, {mono_txt(C)});")
 
 
 class Dag:
@@ -198,15 +300,71 @@ class IdentityFalse(Exception):
         self.witness = witness
 
 
-def find_cofactors(diff, hyps, maxdeg_extra=0):
-    """diff, hyps: Poly.  Find polys c_i with diff == sum c_i*hyps_i over Q (rational coefficients kept
-    integral by scaling is not attempted: we solve over the integers mod a large prime first, then lift
-    small rationals).  Strategy: candidate cofactor monomials = quotients of diff monomials by hyp
-    monomials; solve the linear system with sympy."""
-    import sympy
+def _solve_sparse(rows, rhs, nunk):
+    """rows: dict mono -> dict(unknown index -> int coeff); rhs: dict mono -> int. exact solution with free vars = 0,
+    or None.  Gaussian elimination on sparse rows with Fractions."""
+    from fractions import Fraction
+    eqs = []
+    for m in set(rows) | set(rhs):
+        r = {k: Fraction(v) for k, v in rows.get(m, {}).items() if v}
+        eqs.append([r, Fraction(rhs.get(m, 0))])
+    piv = {}
+    for r, b in eqs:
+        # reduce by existing pivots
+        for c in list(r.keys()):
+            if c in piv and c in r:
+                pr, pb = piv[c]
+                f = r[c]
+                for k, v in pr.items():
+                    nv = r.get(k, 0) - f * v
+                    if nv == 0:
+                        r.pop(k, None)
+                    else:
+                        r[k] = nv
+                b -= f * pb
+        if not r:
+            if b != 0:
+                return None
+            continue
+        c = min(r.keys())
+        pv = r[c]
+        r = {k: v / pv for k, v in r.items()}
+        b = b / pv
+        # eliminate c from existing pivots
+        for c2, (pr, pb) in list(piv.items()):
+            if c in pr:
+                f = pr[c]
+                for k, v in r.items():
+                    nv = pr.get(k, 0) - f * v
+                    if nv == 0:
+                        pr.pop(k, None)
+                    else:
+                        pr[k] = nv
+                piv[c2] = (pr, pb - f * b)
+        piv[c] = (r, b)
+    sol = [Fraction(0)] * nunk
+    for c, (pr, pb) in piv.items():
+        sol[c] = pb  # free variables are 0
+    if any(x.denominator != 1 for x in sol):
+        return None
+    return [int(x) for x in sol]
+
+
+def find_cofactors(diff, hyps, max_unknowns=600):
+    """diff, hyps: Poly.  Find polys c_i with diff == sum c_i*hyps_i (integer coefficients).
+    Stage 1: constant cofactors.  Stage 2: cofactor monomials = quotients of diff monomials by hyp monomials
+    (closed under one more round), solved as a sparse linear system."""
     if diff.is_zero():
         return [Poly() for _ in hyps]
-    # candidate monomials for each cofactor
+    # ---- stage 1: constants
+    rows = defaultdict(dict)
+    for hi, h in enumerate(hyps):
+        for m, c in h.d.items():
+            rows[m][hi] = c
+    sol = _solve_sparse(rows, diff.d, len(hyps))
+    if sol is not None:
+        return [Poly({(): c}) for c in sol]
+
     def mono_div(m, h):
         md = dict(m)
         for n, e in h:
@@ -218,7 +376,7 @@ def find_cofactors(diff, hyps, maxdeg_extra=0):
     for hi, h in enumerate(hyps):
         cs = set()
         frontier = set(diff.d.keys())
-        for _round in range(3):
+        for _round in range(2):
             newc = set()
             for m in frontier:
                 for hm in h.d:
@@ -227,45 +385,28 @@ def find_cofactors(diff, hyps, maxdeg_extra=0):
                         newc.add(qm)
             newc -= cs
             cs |= newc
-            # products of new cofactor monomials with hyp monomials may create further monomials to cancel
             frontier = set()
             for cm in newc:
                 for hm in h.d:
                     frontier |= set((Poly({cm: 1}) * Poly({hm: 1})).d.keys())
             frontier -= set(diff.d.keys())
-            if not frontier:
+            if not frontier or len(cs) > max_unknowns:
                 break
         cands.append(sorted(cs))
     unknowns = [(hi, cm) for hi, cs in enumerate(cands) for cm in cs]
-    if not unknowns:
+    if not unknowns or len(unknowns) > max_unknowns:
         return None
-    # equations: for each monomial, sum coeff = diff coeff
-    rows = defaultdict(lambda: defaultdict(int))
+    rows = defaultdict(dict)
     for ui, (hi, cm) in enumerate(unknowns):
         prod = Poly({cm: 1}) * hyps[hi]
         for m, c in prod.d.items():
-            rows[m][ui] += c
-    monos = sorted(set(rows.keys()) | set(diff.d.keys()))
-    A = sympy.zeros(len(monos), len(unknowns))
-    b = sympy.zeros(len(monos), 1)
-    for r, m in enumerate(monos):
-        for ui, c in rows[m].items():
-            A[r, ui] = c
-        b[r, 0] = diff.d.get(m, 0)
-    try:
-        syms = sympy.symbols(f'x0:{len(unknowns)}')
-        sol = sympy.linsolve((A, b), *syms)
-    except Exception:
-        return None
-    if not sol:
-        return None
-    sol = list(sol)[0]
-    sol = [s.subs({x: 0 for x in syms}) for s in sol]
-    if any(s.q != 1 for s in sol):
+            rows[m][ui] = rows[m].get(ui, 0) + c
+    sol = _solve_sparse(rows, diff.d, len(unknowns))
+    if sol is None:
         return None
     out = [defaultdict(int) for _ in hyps]
-    for (hi, cm), s in zip(unknowns, sol):
-        out[hi][cm] += int(s)
+    for (hi, cm), v in zip(unknowns, sol):
+        out[hi][cm] += v
     return [Poly(o) for o in out]
 
 
@@ -276,6 +417,11 @@ def emit_lemma(name, dag, pairs, hyps=(), extra_requires=(), vars_order=None):
     lines = []
     seen = {}
     need_fin = set()
+    mono_cache = {}
+    sublemmas = []
+
+    def mono_cache_local():
+        return {}
 
     def walk(root):
         # iterative post-order
@@ -303,26 +449,32 @@ def emit_lemma(name, dag, pairs, hyps=(), extra_requires=(), vars_order=None):
             f = {'add': 'fadd', 'sub': 'fsub', 'mul': 'fmul', 'neg': 'fneg', 'dbl': 'fdbl'}[op]
             lines.append(f"let {nn} = {f}({', '.join(x[0] for x in ks)});")
             lines.append(f"let {ee} = {dag.poly(j).txt()};")
-            # operands that are leaves have e == the leaf itself, congruence needs nothing special
+            inner = []
             if op == 'mul':
                 (n1, e1, _), (n2, e2, _) = ks
-                lines.append(f"lemma_mul_mod_noop_general({e1}, {e2}, q);")
-                lines.append(f"assert(({e1}) * ({e2}) == {ee}) by(nonlinear_arith) requires {ee} == {dag.poly(j).txt()}" +
-                             "".join(f", {e} == {dag.poly(k).txt()}" for (nm, e, leaf), k in zip(ks, kids) if not leaf) + ";")
+                pl = []
+                p1, p2 = dag.poly(kids[0]), dag.poly(kids[1])
+                product_proof(p1, p2, pl, mono_cache_local())
+                pv = sorted(p1.vars() | p2.vars())
+                pname = f"{name}_prod{len(sublemmas)}"
+                sublemmas.append(f"proof fn {pname}({', '.join(v + ': int' for v in pv)})\n    ensures ({p1.txt()}) * ({p2.txt()}) == {(p1 * p2).txt()}\n{{ " + "\n  ".join(pl) + " }\n")
+                inner.append(f"{pname}({', '.join(pv)});")
+                inner.append(f"assert(({e1}) * ({e2}) == {ee});")
+                inner.append(f"lemma_mul_mod_noop_general({e1}, {e2}, q);")
             elif op == 'add':
-                lines.append(f"lemma_add_mod_noop({ks[0][1]}, {ks[1][1]}, q);")
-                lines.append(f"assert(({ks[0][1]}) + ({ks[1][1]}) == {ee});")
+                inner.append(f"lemma_add_mod_noop({ks[0][1]}, {ks[1][1]}, q);")
+                inner.append(f"assert(({ks[0][1]}) + ({ks[1][1]}) == {ee});")
             elif op == 'sub':
-                lines.append(f"lemma_sub_mod_noop({ks[0][1]}, {ks[1][1]}, q);")
-                lines.append(f"assert(({ks[0][1]}) - ({ks[1][1]}) == {ee});")
+                inner.append(f"lemma_sub_mod_noop({ks[0][1]}, {ks[1][1]}, q);")
+                inner.append(f"assert(({ks[0][1]}) - ({ks[1][1]}) == {ee});")
             elif op == 'neg':
-                lines.append(f"lemma_sub_mod_noop(0, {ks[0][1]}, q);")
-                lines.append(f"lemma_small_mod(0, q as nat);")
-                lines.append(f"assert(0 - ({ks[0][1]}) == {ee});")
+                inner.append(f"lemma_sub_mod_noop(0, {ks[0][1]}, q);")
+                inner.append(f"lemma_small_mod(0, q as nat);")
+                inner.append(f"assert(0 - ({ks[0][1]}) == {ee});")
             elif op == 'dbl':
-                lines.append(f"lemma_add_mod_noop({ks[0][1]}, {ks[0][1]}, q);")
-                lines.append(f"assert(({ks[0][1]}) + ({ks[0][1]}) == {ee});")
-            lines.append(f"assert({nn} == ({ee}) % q);")
+                inner.append(f"lemma_add_mod_noop({ks[0][1]}, {ks[0][1]}, q);")
+                inner.append(f"assert(({ks[0][1]}) + ({ks[0][1]}) == {ee});")
+            lines.append(f"assert({nn} == ({ee}) % q) by {{ " + "\n        ".join(inner) + " }")
             seen[j] = (nn, ee, False)
         return seen[root]
 
@@ -363,8 +515,17 @@ def emit_lemma(name, dag, pairs, hyps=(), extra_requires=(), vars_order=None):
             terms = " + ".join(f"(({cp.txt()}) * (({wl[1]}) - ({wr[1]})))" for hi, wl, wr, cp in hl)
             k = len(closing)
             closing.append(f"let dlt{k} = ({nc[1]}) - ({ns[1]});")
-            closing.append(f"assert(dlt{k} == {terms}) by(nonlinear_arith) requires dlt{k} == ({pc.txt()}) - ({ps.txt()})" +
-                           "".join(f", ({wl[1]}) == {dag.poly(hyps[hi][0]).txt()}, ({wr[1]}) == {dag.poly(hyps[hi][1]).txt()}" for hi, wl, wr, cp in hl) + ";")
+            for hi, wl, wr, cp in hl:
+                hd = dag.poly(hyps[hi][0]) - dag.poly(hyps[hi][1])
+                closing.append(f"assert(({wl[1]}) - ({wr[1]}) == {hd.txt()});")
+                pl = []
+                product_proof(cp, hd, pl, {})
+                pv = sorted(cp.vars() | hd.vars())
+                pname = f"{name}_prod{len(sublemmas)}"
+                sublemmas.append(f"proof fn {pname}({', '.join(v + ': int' for v in pv)})\n    ensures ({cp.txt()}) * ({hd.txt()}) == {(cp * hd).txt()}\n{{ " + "\n  ".join(pl) + " }\n")
+                closing.append(f"{pname}({', '.join(pv)});")
+                closing.append(f"assert(({cp.txt()}) * (({wl[1]}) - ({wr[1]})) == {(cp * hd).txt()});")
+            closing.append(f"assert(dlt{k} == {terms});")
             for hi, wl, wr, cp in hl:
                 closing.append(f"lemma_cong_zero_mul(({cp.txt()}), ({wl[1]}), ({wr[1]}), q);")
             closing.append("lemma_sum_zero_mod{}({}, q);".format(len(hl), ", ".join(f"(({cp.txt()}) * (({wl[1]}) - ({wr[1]})))" for hi, wl, wr, cp in hl)))
@@ -385,9 +546,9 @@ def emit_lemma(name, dag, pairs, hyps=(), extra_requires=(), vars_order=None):
     if req:
         head += "    requires " + ",\n        ".join(req) + ",\n"
     head += "    ensures " + ",\n        ".join(ens) + ",\n"
-    body = "{\n    ax_q_pos(); let q = Q();\n    "
+    body = "{\n    ax_q_pos(); let q = Q(); lemma_small_mod(0, q as nat); lemma_small_mod(1, q as nat);\n    "
     body += " ".join(f"lemma_small_mod({v} as nat, q as nat);" for v in plist) + "\n    "
-    body += "\n    ".join(lines + closing) + "\n}\n"
+    body += "\n    ".join(lines + closing) + "\n}\n" + "\n".join(sublemmas)
     return (head, body), plist
 
 
@@ -399,5 +560,46 @@ def random_witness(dag, c, s, hyps=(), tries=8, seed=0):
     for _ in range(tries):
         env = {v: rnd.randrange(Q) for v in vs}
         if pc.eval(env, Q) != ps.eval(env, Q):
+            return env
+    return None
+
+
+def path_witness(dag, c, s, path, tries=16, seed=0):
+    """an assignment satisfying the path's taken-true leaf equalities (x == 0 / x == y on leaves) where
+    code and spec differ mod Q.  Hypotheses from inverse() calls are solved when linear in the fresh var."""
+    rnd = random.Random(seed)
+    pc, ps = dag.poly(c), dag.poly(s)
+    vs = set(pc.vars() | ps.vars())
+    eqs = []
+    for cnd in path.get('conds', []):
+        if cnd['taken']:
+            eqs += [tuple(e) for e in cnd['eqs']]
+    hyps = [tuple(h) for h in path.get('hyps', [])]
+    for l, r in eqs + hyps:
+        vs |= dag.poly(l).vars() | dag.poly(r).vars()
+    fresh = [n for n, _ in path.get('fresh', [])]
+    for _ in range(tries):
+        env = {v: rnd.randrange(1, Q) for v in vs}
+        ok = True
+        # leaf equalities: force
+        for l, r in eqs:
+            pl, pr = dag.poly(l), dag.poly(r)
+            if len(pl.vars()) == 1 and pl.nterms() == 1 and list(pl.d.values()) == [1] and sum(e for _, e in list(pl.d)[0]) == 1:
+                v = next(iter(pl.vars()))
+                env[v] = pr.eval(env, Q)
+            elif pl.eval(env, Q) != pr.eval(env, Q):
+                ok = False
+        # inverse hypotheses  a * inv == 1 : solve for inv when a does not mention it
+        for l, r in hyps:
+            n = dag.nodes[l]
+            if n[0] == 'mul' and dag.nodes[n[2]][0] == 'v':
+                a = dag.poly(n[1]).eval(env, Q)
+                if a == 0:
+                    ok = False
+                else:
+                    env[dag.nodes[n[2]][1]] = pow(a, Q - 2, Q)
+            elif dag.poly(l).eval(env, Q) != dag.poly(r).eval(env, Q):
+                ok = False
+        if ok and pc.eval(env, Q) != ps.eval(env, Q):
             return env
     return None
